@@ -11,7 +11,7 @@ full (type kind x operator x boundary operand) product as one-line programs.
 """
 import itertools
 
-from gen import progs
+from gen import progs, families
 from vlib import core, progstream, known
 
 MODULES = ["HmsProofs.C02"]
@@ -73,6 +73,9 @@ def operator_matrix():
             "none", "?1", "1..2", "new { x: new { p: 1 } }", "new { x: new { q: 1 } }"]
     for a, b in itertools.product(vals, vals):
         out.append(f"fn main() {{ let o = new {{ ? }}; o.set(\"a\", {a}); o.set(\"b\", {b}); println(o.get(\"a\") == o.get(\"b\"), o.get(\"a\") != o.get(\"b\")); }}")
+    # corners of the language outside the typed generator (type definitions, event functions, trigger statements and
+    # annotations, host type imports, impl blocks, builtins): accepted => both backends end with completion or an interrupt
+    out += families.tour() + families.tour_vm_only()
     return out
 
 
